@@ -25,6 +25,10 @@ func (c *fctx) call(fr *frame, in ssa.CallInstruction, reach string, st *state) 
 	if b, ok := cm.Value.(*ssa.Builtin); ok {
 		return c.builtin(fr, b, cm, reach, st, pos, resT)
 	}
+	if mc := isRangeFuncCall(in); mc != nil {
+		c.rangeFunc(fr, in, mc, reach, st)
+		return val{}
+	}
 	args := make([]val, 0, len(cm.Args)+1)
 	if cm.IsInvoke() {
 		recv := c.operand(fr, cm.Value)
@@ -1019,4 +1023,107 @@ func (c *fctx) ghostOnly(ct *spec.FuncContract) *spec.FuncContract {
 	}
 	n.Assigns = as
 	return &n
+}
+
+
+// ---------------------------------------------------------------- range-over-func
+
+// rangeFunc models `for x, y := range it { body }` as compiled by go/ssa: the call it(yield), where yield is the
+// synthesized closure holding the loop body.  The iterator is treated as unknown: it calls yield any number of times
+// with arbitrary arguments and stops after yield returned false; it has no other effect on the caller's state.
+// Like every loop it needs invariants (`loop N: invariant ...`, N counting all loops in source order):
+//   established before the call; preserved by every yield that returns true; the state afterwards is either a state
+//   satisfying the invariants (the iterator finished) or the state in which one more yield returned false.
+func (c *fctx) rangeFunc(fr *frame, in ssa.CallInstruction, mc *ssa.MakeClosure, reach string, st *state) {
+	yf := mc.Fn.(*ssa.Function)
+	call := in.(ssa.Instruction)
+	c.used["assumed: iterators (iter.Seq / iter.Seq2 values) call yield with arbitrary arguments, stop after it returned false, terminate, and have no other effect on the caller's state"] = true
+	ord := rangeFuncOrdinal(fr.fn, call)
+	li := &loopInfo{header: call.Block(), blocks: map[*ssa.BasicBlock]bool{}, ordinal: ord, rfCall: call}
+	if fr.contract != nil {
+		li.spec = fr.contract.Loops[ord]
+	}
+	if li.spec == nil {
+		c.errorf("%s: range-over-func loop %d (at %s) has no invariant/contract", fr.prefix+fr.fn.String(), ord, c.pos(call.Pos()))
+		li.spec = &spec.LoopSpec{}
+	}
+	savedAt := fr.rfAt
+	fr.rfAt = call
+	defer func() { fr.rfAt = savedAt }()
+	var bindings []val
+	for _, b := range mc.Bindings {
+		bindings = append(bindings, c.operand(fr, b))
+	}
+	// 1. invariants hold on entry
+	c.checkInvariants(fr, li, reach, st, nil, "established")
+	// 2. havoc everything the body may write (no frame refinement: the invariants must carry what is needed)
+	w := &wsCtx{out: map[string]*wsEntry{}, li: nil, seen: map[*ssa.Function]bool{}}
+	for _, b := range yf.Blocks {
+		for _, ins := range b.Instrs {
+			c.instrWrites(yf, ins, w, 0)
+		}
+	}
+	if w.out["*"] != nil {
+		c.errorf("%s: range-over-func loop %d calls a function that 'assigns anything' (unsupported inside loops)", fr.fn, ord)
+	}
+	var wk []string
+	for k := range w.out {
+		wk = append(wk, k)
+	}
+	sort.Strings(wk)
+	preAlloc := c.region(st, "alloc", "(Array Int Bool)")
+	for _, k := range wk {
+		srt := c.regionSort(k)
+		if srt == "" {
+			continue
+		}
+		c.noteWrite(k, "", "false", call.Pos(), fr, st) // keeps enclosing loops' write-set cross-check informed
+		st.h[k] = c.fresh("Hr."+k, srt)
+	}
+	if w.out["alloc"] != nil {
+		na := c.region(st, "alloc", "(Array Int Bool)")
+		c.assume(fmt.Sprintf("(forall ((x!a Int)) (! (=> (select %s x!a) (select %s x!a)) :pattern ((select %s x!a))))", preAlloc, na, preAlloc))
+	}
+	c.assumeInvariants(fr, li, reach, st)
+	// the jump variable is READY (0) whenever the iterator is about to call yield or has finished
+	var jumpAddr *addr
+	for i, fv := range yf.FreeVars {
+		if strings.HasPrefix(fv.Name(), "jump$") && i < len(bindings) {
+			jumpAddr = c.addrOfPointer(bindings[i], fv.Type())
+		}
+	}
+	if jumpAddr != nil {
+		c.assume(implies(reach, fmt.Sprintf("(= %s 0)", c.load(jumpAddr, st))))
+	}
+	// 3. one more call of yield, with arbitrary arguments
+	done := c.fresh("rf.done", "Bool")
+	body := st.clone()
+	nf := &frame{fn: yf, vals: map[ssa.Value]val{}, prefix: fr.prefix + fmt.Sprintf("loop%d>", ord), parent: fr, depth: fr.depth + 1, contract: c.P.ContractFor(yf)}
+	breach := and(reach, not(done))
+	for _, prm := range yf.Params {
+		v := c.fresh("yield."+prm.Name(), c.S.SortOf(prm.Type()))
+		c.assumeFacts(breach, v, prm.Type(), body)
+		nf.vals[prm] = val{t: v}
+	}
+	for i, fv := range yf.FreeVars {
+		if i < len(bindings) {
+			nf.vals[fv] = bindings[i]
+		}
+	}
+	rets := c.runBody(nf, breach, body)
+	conds := []string{and(reach, done)}
+	sts := []*state{st.clone()}
+	for _, r := range rets {
+		if len(r.results) != 1 {
+			continue
+		}
+		cont := c.termOf(r.results[0], "yield result")
+		// preserved when the body asks for another element
+		c.checkInvariants(fr, li, and(r.cond, cont), r.st, nil, "preserved")
+		conds = append(conds, and(r.cond, not(cont)))
+		sts = append(sts, r.st)
+	}
+	merged := c.mergeStates(conds, sts)
+	st.h = merged.h
+	c.assume(implies(reach, or(conds...)))
 }
